@@ -1,7 +1,82 @@
-(** C11 — placeholder, replaced once the proofs are pinned. *)
-From BV Require Import Base.Prelude Conc.Pipe Conc.Sched Conc.Status.
+(** C11 — pipelines and command substitutions move all data, in order, without deadlock
+    (partial: theorems about the transition-system model of brush's pipeline algorithm).
+    Only pinned statements, [exact], and [Print Assumptions]. *)
+From BV Require Import Base.Prelude Conc.Pipe Conc.Sched Conc.SchedProofs Conc.Deadlock Conc.Status.
 
+(** On every schedule, for every pipe: read ++ in-flight = written (order kept, nothing lost
+    or duplicated), and the buffer stays within the capacity. Any stage kinds, any capacity. *)
+Theorem c11_fifo_integrity : forall (A : Type) (C : nat) (sgs : list (stage A)) (s : state A),
+  reach C (init sgs) s ->
+  Forall (fun p : pipe A => hw p = hr p ++ buf p /\ (length (buf p) <= C)%nat) (pipes s).
+Proof. exact fifo_integrity. Qed.
+Print Assumptions c11_fifo_integrity.
+
+(** If no stage but the last is executed inline, no reachable unfinished state is stuck —
+    every payload, every capacity >= 1, every interleaving and split of reads and writes. *)
+Theorem c11_progress_all_spawned : forall (A : Type) (C : nat), (1 <= C)%nat ->
+  forall (sgs : list (stage A)) (s : state A),
+  inline_only_last (map (@skind A) sgs) -> reach C (init sgs) s -> ~ final s ->
+  exists s', step C s s'.
+Proof. exact progress_all_spawned. Qed.
+Print Assumptions c11_progress_all_spawned.
+
+(** No schedule from a reachable state is longer than that state's measure (any stage kinds):
+    together with progress, every schedule of an all-spawned pipeline ends in the final state. *)
+Theorem c11_terminates : forall (A : Type) (C : nat) (sgs : list (stage A)) (s : state A),
+  reach C (init sgs) s ->
+  forall ls s', run_labels C s ls = Some s' -> (length ls + mu A s' <= mu A s)%nat.
+Proof. exact terminates. Qed.
+Print Assumptions c11_terminates.
+
+(** After the reader of pipe i has exited, the writer's next write (any quantum) ends the
+    writer with status 141 instead of blocking. *)
+Theorem c11_early_exit_reader : forall (A : Type) (C : nat) (sgs : list (stage A)) (s : state A)
+    (i : nat) (sg : stage A) (k : nat),
+  reach C (init sgs) s -> k <> 0%nat ->
+  nth_error (stages s) i = Some sg -> sst sg = Running -> spend sg <> [] ->
+  done_at A s (S i) = true ->
+  next C s (LStage i k) = Some (exit_stage s i sg EPIPE_STATUS).
+Proof. exact early_exit_reader. Qed.
+Print Assumptions c11_early_exit_reader.
+
+(** brush today: a stage executed inline in the middle can deadlock (capacity 1, payload 3). *)
+Theorem c11_inline_stage_deadlock_refuted :
+  exists (C : nat) (sgs : list (stage nat)) (s : state nat),
+    (1 <= C)%nat /\ (3 <= length (flat_map (@spend nat) sgs))%nat /\
+    reach C (init sgs) s /\ ~ final s /\ stuck C s.
+Proof. exact inline_stage_deadlock_refuted. Qed.
+Print Assumptions c11_inline_stage_deadlock_refuted.
+
+(** The schedulers run by the correspondence entry only take steps of the system. *)
+Theorem c11_run_sched_sound : forall (A : Type) (C : nat) (down : bool) (fuel : nat)
+    (s s0 : state A) (o : outcome A),
+  reach C s0 s -> run_sched C down fuel s = o ->
+  match o with
+  | OFinal s' => reach C s0 s' /\ final s'
+  | OStuck s' => reach C s0 s'
+  | OFuel s' => reach C s0 s'
+  end.
+Proof. exact (fun A C down fuel => @run_sched_reach A C down fuel). Qed.
+Print Assumptions c11_run_sched_sound.
+
+(** `$?` and PIPESTATUS computed by the wait loop equal bash's rule (last status; with
+    pipefail the rightmost failure; `!` inverts; PIPESTATUS is the status vector). *)
 Theorem c11_pipeline_status_spec : forall pipefail bang codes, codes <> [] ->
   pipeline_status pipefail bang codes = spec_status pipefail bang codes.
 Proof. exact pipeline_status_spec. Qed.
 Print Assumptions c11_pipeline_status_spec.
+
+(** `$(...)` drops exactly the maximal suffix of newlines. *)
+Theorem c11_cmdsub_strip : forall s : str, exists k,
+  s = strip_nl s ++ repeat NL k /\
+  (strip_nl s = [] \/ exists s' c, strip_nl s = s' ++ [c] /\ c <> NL).
+Proof. exact cmdsub_strip. Qed.
+Print Assumptions c11_cmdsub_strip.
+
+(** Non-vacuity: `source 5 | cat | head 2` (last stage inline, capacity 2) satisfies the
+    hypothesis of progress and completes with exactly the first two units. *)
+Theorem c11_nonvacuous :
+  inline_only_last (map (@skind nat) ex_cfg) /\
+  exists s, reach 2 (init ex_cfg) s /\ final s /\ out s = [0; 1]%nat /\ sts s = [0; 141; 0]%nat.
+Proof. exact ex_nonvacuous. Qed.
+Print Assumptions c11_nonvacuous.
